@@ -483,6 +483,7 @@ theorem addResponse_loc {d : BDir} {anc : List Up} {c c' : Cat} (hk : d.kind = .
   unfold addResponse at h
   simp only [fail] at h
   split at h; · cases h
+  split at h; · cases h
   obtain ⟨nt, hnt, h⟩ := C04B.bind_ok h
   have hn := notaOf_eq hnt
   subst hn
